@@ -24,6 +24,8 @@ THEOREMS = [
     "CM.Args.C01_addArg_wf",
     "CM.Args.cls_replaceArgs",
     "CM.Args.C01_addArgToCall_wf",
+    "CM.Args.C01_callTarget_wf",
+    "CM.Args.C01_callTarget_old_bare_generator",
     "CM.Args.C01_updateArgTarget_wf",
     "CM.Args.C01_addArg_old_bare_generator",
     "CM.Prec.C08_combine_preserves_wp",
@@ -80,6 +82,10 @@ def corr(ctx):
         # property-level oracle for the mechanism: a well-formed call stays well-formed
         # (for replace_args the call the codemods build is update_arg_target(replace_args(..)): that one is judged)
         out_ok = ans.get("wf_updated", ans["wf_out"])
+        if rq["op"] == "call_target":
+            if out_ok is False:    # judged only for well-formed input calls (None otherwise)
+                ctx.fail({"kind": "args-ill-formed", "op": rq["op"]}, f"{im['src']} -> {im['rendered']} is no longer a valid call", {"request": rq, "impl": im})
+            continue
         if ans["wf_in"] and not out_ok:
             ctx.fail({"kind": "args-ill-formed", "op": rq["op"]}, f"{im['src']} -> {im.get('rendered_updated', im['rendered'])} is no longer a valid call", {"request": rq, "impl": im})
 
